@@ -755,10 +755,19 @@ func Verif_C24_ParseB() { r := verifrt.Choose(8, 15); c24ParseAt(r, c24Extra(r, 
 func Verif_C24_ParseC() { r := verifrt.Choose(16, 26); c24ParseAt(r, c24Extra(r, 5), true) }
 func Verif_C24_ParseD() { r := verifrt.Choose(28, 37); c24ParseAt(r, c24Extra(r, 5), true) }
 func Verif_C24_ParseE() {
-	// kexInitMsg and the ad hoc struct: lengths 0, 1 and min-2..min+extra only (with ten name-lists every
-	// shorter length already has thousands of ways to run out of bytes).
-	r := []int{27, 38, 39}[verifrt.Choose(0, 2)]
-	c24ParseAt(r, c24Extra(r, 5), r == 39)
+	// The codec splits a name-list of L symbolic bytes in 2^L ways, and in kexInitMsg / the ad hoc struct
+	// a name-list may swallow most of the packet.  So: c24AdHocNoTag: all lengths 0..min+5; kexInitMsg:
+	// only the short packets 0, 1, 16, 17, 20..23 (all rejected; accepted kexInitMsg packets are covered by
+	// the round-trip harnesses); ad hoc struct: lengths 0, 1, min-2..min+1.
+	switch verifrt.Choose(0, 2) {
+	case 0:
+		c24ParseAt(39, 5, true)
+	case 1:
+		c24ParseAt(38, 1, false)
+	case 2:
+		n := []int{0, 1, 16, 17, 20, 21, 22, 23}[verifrt.Choose(0, 7)]
+		c24ParseRow(27, verifrt.Bytes(n))
+	}
 }
 
 // c24DecodeIdx maps a message number to the c24Rows index decode() must dispatch to, 254 for
